@@ -379,7 +379,7 @@ func (c *hctx) scanZeros() []string {
 	// named results start at their zero values
 	sig := c.fn.obj.Type().(*types.Signature)
 	for i := 0; i < sig.Results().Len(); i++ {
-		if rv := sig.Results().At(i); rv.Name() != "" && rv.Name() != "_" {
+		if rv := sig.Results().At(i); rv.Name() != "" {
 			add(c.zeroNeeds(g.typeOf(rv.Type(), nil))...)
 		}
 	}
@@ -616,7 +616,7 @@ func (c *hctx) structLit(v *ast.CompositeLit, t *hty, pre *[]hbind) string {
 			c.lostAt(v, "composite literal field")
 		}
 		x, xt := c.expr(val, pre)
-		if xt.k == "func" || xt.k == "slice" {
+		if xt.k == "func" {
 			c.lostAt(val, "field value of type %s", xt.k)
 		}
 		vals[k] = paren(x)
@@ -873,6 +873,20 @@ func (c *hctx) call(v *ast.CallExpr, pre *[]hbind, want []string) ([]string, []*
 		if x := c.lookup(f); x != nil && x.typ.k == "func" {
 			return c.callValue(x, v, pre)
 		}
+	case *ast.SelectorExpr:
+		if c.isRecvIdent(f.X) {
+			if x := c.fields[f.Sel.Name]; x != nil && x.typ.k == "func" {
+				return c.callValue(x, v, pre) // t.compare(a, b): a function-typed field of the receiver
+			}
+		}
+		if id, ok := f.X.(*ast.Ident); ok && id.Name == "slices" && f.Sel.Name == "Clone" && len(v.Args) == 1 {
+			if _, isPkg := g.info.Uses[id].(*types.PkgName); isPkg {
+				x, t := c.expr(v.Args[0], pre)
+				if t.k == "slice" {
+					return one(x, t) // a new slice with the same elements: the same list
+				}
+			}
+		}
 	}
 	c.lostAt(v, "call of %s", src(v.Fun))
 	return nil, nil
@@ -949,7 +963,19 @@ func (c *hctx) callTranslated(cal *hfunc, fun ast.Expr, args []ast.Expr, ellipsi
 	if cal.ctor {
 		c.lostAt(at, "call of the constructor %s", cal.spec)
 	}
+	selfInLoop := cal == c.fn && (len(c.loops) > 0 || c.lit != nil)
+	if selfInLoop {
+		if c.lit != nil {
+			c.lostAt(at, "recursive call inside a function literal")
+		}
+		if c.selfVar == nil {
+			c.selfVar = c.newVar("self_", &hty{k: "func", raw: c.selfType(), rawTps: c.selfTps()}, "param")
+		}
+	}
 	s := cal.name
+	if selfInLoop {
+		s = c.selfVar.name
+	}
 	fun = ast.Unparen(fun)
 	switch v := fun.(type) {
 	case *ast.IndexExpr:
@@ -1050,10 +1076,14 @@ func (c *hctx) callTranslated(cal *hfunc, fun ast.Expr, args []ast.Expr, ellipsi
 				statePats = append(statePats, pat)
 				clo = nil
 			} else {
-				id, ok := ast.Unparen(a).(*ast.Ident)
 				var x *hvar
-				if ok {
-					x = c.lookup(id)
+				switch fa := ast.Unparen(a).(type) {
+				case *ast.Ident:
+					x = c.lookup(fa)
+				case *ast.SelectorExpr:
+					if c.isRecvIdent(fa.X) {
+						x = c.fields[fa.Sel.Name] // t.compare: a function-typed field of the receiver
+					}
 				}
 				if x == nil || x.typ.k != "func" || x.typ.stateful || x.typ.shape != nil {
 					c.lostAt(a, "function value %s for the pure callback parameter %s of %s", src(a), p.goName, cal.name)
@@ -1078,11 +1108,18 @@ func (c *hctx) callTranslated(cal *hfunc, fun ast.Expr, args []ast.Expr, ellipsi
 	}
 	sub := c.typeSub(cal, fun)
 	for _, z := range cal.zeros {
+		if selfInLoop {
+			break // self_ has them already
+		}
 		s += " " + paren(c.zeroOf(hsubst(&hty{k: "elem", name: z}, sub), at))
 	}
 	isFuel := cal.fuel
 	if cal == c.fn {
 		isFuel = true
+	}
+	if selfInLoop {
+		isFuel = false
+		c.fuel = true
 	}
 	if isFuel {
 		s += " fuel"
